@@ -2,10 +2,10 @@ package main
 
 import (
 	"math"
-	"strings"
 	"math/big"
 	"math/rand"
 	"strconv"
+	"strings"
 	"time"
 
 	"github.com/Fantom-foundation/lachesis-base/emitter/doublesign"
@@ -99,28 +99,65 @@ func c21Run(in []string) []string {
 			ts[i] = c21Time(pi(in[3+2*i]), pi(in[4+2*i]))
 		}
 	}
-	s := doublesign.SyncStatus{
-		PeersNum:                  int(peers),
-		Now:                       ts[0],
-		Startup:                   ts[1],
-		LastConnected:             ts[2],
-		P2PSynced:                 ts[3],
-		BecameValidator:           ts[4],
-		ExternalSelfEventCreated:  ts[5],
-		ExternalSelfEventDetected: ts[6],
+	mk := func(ts [7]time.Time) doublesign.SyncStatus {
+		return doublesign.SyncStatus{
+			PeersNum:                  int(peers),
+			Now:                       ts[0],
+			Startup:                   ts[1],
+			LastConnected:             ts[2],
+			P2PSynced:                 ts[3],
+			BecameValidator:           ts[4],
+			ExternalSelfEventCreated:  ts[5],
+			ExternalSelfEventDetected: ts[6],
+		}
+	}
+	isS := op == "S" || op == "SM" || op == "SX"
+	run := func(ts [7]time.Time) []string {
+		if isS {
+			w, err := doublesign.SyncedToEmit(mk(ts), th)
+			return []string{strconv.FormatInt(int64(w), 10), c21ErrCode(err)}
+		}
+		return []string{vu.B(doublesign.DetectParallelInstance(mk(ts), th))}
 	}
 	c21SweepStats(op, peers, int64(th), ts)
-	if op == "S" || op == "SM" || op == "SX" {
-		w, err := doublesign.SyncedToEmit(s, th)
-		vu.Stat(op + ".err=" + c21ErrCode(err))
-		if w == math.MaxInt64 {
+	out := run(ts)
+	// REPRESENTATION independence (metamorphic): the same seven instants in other representations of
+	// time.Time (UTC = nil Location, Local, a fixed zone; these also strip a monotonic reading) must give
+	// the same answer; the model sees instants only.  Any difference is appended to the observation.
+	zone := time.FixedZone("verif+5", 5*3600)
+	for v := 1; v <= 3; v++ {
+		var alt [7]time.Time
+		for i := range ts {
+			switch (i + v) % 4 {
+			case 0:
+				alt[i] = ts[i]
+			case 1:
+				alt[i] = ts[i].UTC()
+			case 2:
+				alt[i] = ts[i].Local()
+			default:
+				alt[i] = ts[i].In(zone)
+			}
+			if alt[i].IsZero() && alt[i] != (time.Time{}) {
+				vu.Stat("rep.zero_instant_with_location")
+			}
+		}
+		vu.Stat("rep.variant_runs")
+		if got := run(alt); strings.Join(got, ",") != strings.Join(out, ",") {
+			out = append(out, "representation-dependent:variant"+vu.Itoa(v)+"="+strings.Join(got, ","))
+			vu.Stat("rep.DIFFERENT")
+			break
+		}
+	}
+	if isS {
+		vu.Stat(op + ".err=" + out[1])
+		if out[0] == strconv.FormatInt(math.MaxInt64, 10) {
 			vu.Stat(op + ".wait=max")
 		}
-		return []string{strconv.FormatInt(int64(w), 10), c21ErrCode(err)}
+	} else {
+		vu.Stat(op + "=" + out[0])
 	}
-	r := doublesign.DetectParallelInstance(s, th)
-	vu.Stat(op + "=" + vu.B(r))
-	return []string{vu.B(r)}
+	return out
 }
 
 // c21SweepStats records which configuration classes a case reaches (evidence: input_distribution).
